@@ -31,6 +31,10 @@ class PathEnd(Exception):
     """The current path is finished (invariant re-established, or infeasible)."""
 
 
+class PathBound(Exception):
+    """The current path leaves the explored fragment (a stated bound); the other paths go on."""
+
+
 class Infeasible(PathEnd):
     pass
 
@@ -385,6 +389,16 @@ class VC:
         self.pc.append(cond if d else z3.Not(cond))
         return d
 
+    def valid(self, cond):
+        """cond holds on every state of the current path (no fork)"""
+        c = z3.simplify(_z(cond))
+        if z3.is_true(c):
+            return True
+        if z3.is_false(c):
+            return False
+        st, _m = solve.satisfiable(self.pc + [z3.Not(c)], timeout_ms=10000)
+        return st == "unsat"
+
     def fork(self, tag):
         """A free nondeterministic choice (both alternatives explored)."""
         b = self.fresh_bool("choice_" + str(tag))
@@ -491,6 +505,9 @@ class VC:
                 thunk()
             except PathEnd:
                 pass
+            except PathBound as e:
+                # this path only: the others are still explored (what is refuted on them is a refutation)
+                self._record("exploration/%s: every path explored" % (tag or "run"), "undecided", str(e))
             finally:
                 VC._cur = None
         return n
@@ -889,9 +906,49 @@ _MISSING = object()
 class _LoopRT:
     """Runtime support object bound as __vc_loops in the sandbox."""
 
+    UNROLL = 2          # iterations of a loop without contract over a symbolic range that are explored (bounded)
+
     def __init__(self, vc, specs, fname):
-        self.vc, self.specs, self.fname = vc, specs, fname
+        self.vc, self.fname = vc, fname
+        self.contracts = specs                      # as declared: ordinal (or name) -> spec
+        self.semantic = any(getattr(s, "match", None) for s in specs.values())
+        self.specs = {} if self.semantic else specs  # loop ordinal in the current source -> spec (bound at run time when semantic)
         self.state = {}
+
+    def bind(self, k, it, env):
+        """Contracts with a `match` predicate are bound to the loop whose iterable they describe (what the loop ranges over,
+        not where it stands in the source): code that gains or loses an unrelated loop keeps its contracts.  Returns True
+        when loop k runs without a contract (plain execution)."""
+        if not self.semantic:
+            return False
+        self.specs.pop(k, None)
+        for key, spec in self.contracts.items():
+            m = getattr(spec, "match", None)
+            if m is not None and m(it, env):
+                self.specs[k] = spec
+                return False
+        return True
+
+    def plain_iter(self, k, it):
+        """A loop without contract: run as it is when its iterable is concrete; over a symbolic range the first UNROLL
+        iterations are explored path by path (bounded), longer runs of it are left undecided."""
+        if not hasattr(it, "length"):
+            for x in it:
+                yield x
+            return
+        n = it.length()
+        if not isinstance(n, Sym):
+            for i in range(n):
+                yield it.elem(i)
+            return
+        i = 0
+        while True:
+            if self.vc.decide(_z(n) <= i):
+                return
+            if i >= self.UNROLL:
+                raise PathBound("a loop without contract over a symbolic range runs more than %d times on this path (loop %d of %s)" % (self.UNROLL, k, self.fname))
+            yield it.elem(i)
+            i += 1
 
     def enter(self, k, it, env):
         spec = self.specs[k]
@@ -1065,9 +1122,10 @@ class _Rewriter(ast.NodeTransformer):
         self.counter += 1          # numbered in source order (pre-order)
         k = self.counter
         self.generic_visit(node)
-        if k not in self.specs:
+        semantic = any(getattr(s, "match", None) for s in self.specs.values())
+        if k not in self.specs and not semantic:
             return node
-        self.rewritten.append({"loop": k, "line": node.lineno, "contract": self.specs[k].name})
+        self.rewritten.append({"loop": k, "line": node.lineno, "contract": "bound at run time by what the loop ranges over" if semantic else self.specs[k].name})
         assigned = set()
         for sub in ast.walk(ast.Module(body=node.body, type_ignores=[])):
             if isinstance(sub, ast.Name) and isinstance(sub.ctx, ast.Store):
@@ -1093,8 +1151,19 @@ class _Rewriter(ast.NodeTransformer):
         if node.orelse:
             raise Unmodelled("for/else under a loop contract")
         iff = ast.If(test=ast.parse("__vc_loops.fork(%d)" % k, mode="eval").body, body=body_if, orelse=hav("True"))
-        out.append(iff)
-        return out
+        if not semantic:
+            out.append(iff)
+            return out
+        # contracts bound at run time: the loop runs under its contract (cut-point form) when one describes its iterable,
+        # and as it stands otherwise
+        import copy as _copy
+        rawit = "__vc_raw%d" % k
+        pre = L("%s = None" % rawit)
+        pre[0].value = node.iter
+        out[0].value.args[1] = ast.Name(id=rawit, ctx=ast.Load())
+        plain = ast.For(target=_copy.deepcopy(node.target), iter=ast.parse("__vc_loops.plain_iter(%d, %s)" % (k, rawit), mode="eval").body,
+                        body=_copy.deepcopy(node.body), orelse=_copy.deepcopy(node.orelse), type_comment=None)
+        return pre + [ast.If(test=ast.parse("__vc_loops.bind(%d, %s, locals())" % (k, rawit), mode="eval").body, body=[plain], orelse=out + [iff])]
 
 
 def load(fn, specs=None, vc=None, extra_globals=None, cls=None, name=None):
@@ -1111,7 +1180,7 @@ def load(fn, specs=None, vc=None, extra_globals=None, cls=None, name=None):
     rw = _Rewriter(specs, cls.__name__ if cls else None)
     tree = rw.visit(tree)
     ast.fix_missing_locations(tree)
-    missing = [k for k in specs if k not in [r["loop"] for r in rw.rewritten]]
+    missing = [k for k in specs if k not in [r["loop"] for r in rw.rewritten] and not getattr(specs[k], "match", None)]
     if missing:
         raise Unmodelled("loop contract(s) %s of %s have no matching loop in the current source" % (missing, name or raw.__qualname__))
     g = dict(raw.__globals__)
